@@ -60,6 +60,27 @@ for pid in props:
         "level_note": row["note"],
         "technique": row["technique"],
     })
+# engines: which properties each one serves, measured from the harness items
+_eng_props: dict = {}
+for pid in props:
+    if os.path.exists(os.path.join(HERE, "harness", pid + ".py")) and not (table.get(pid) or {}).get("not_applicable"):
+        try:
+            mod = importlib.import_module("harness." + pid)
+        except Exception:  # noqa: BLE001
+            continue
+        src = open(os.path.join(HERE, "harness", pid + ".py")).read()
+        for it in getattr(mod, "__verif_items__", []):
+            for e in str(it.engine).replace("+", " ").split():
+                _eng_props.setdefault(e.split("-")[0], set()).add(pid)
+        if "reglobalize(" in src:
+            _eng_props.setdefault("reglob", set()).add(pid)
+        if "_sx" in src:
+            _eng_props.setdefault("sx", set()).add(pid)
+engines = []
+for e in table.get("_engines", []):
+    e = dict(e)
+    e["serves_properties"] = sorted(_eng_props.get(e["name"], set()))
+    engines.append(e)
 m = {
     "version": 1,
     "setup_cmd": "./setup.sh",
@@ -70,7 +91,7 @@ m = {
         "source_commits": [],
         "add_only": True,
     },
-    "engines": table.get("_engines", []),
+    "engines": engines,
     "checks": checks,
     "notes": table.get("_notes", ""),
     "not_applicable": na,
